@@ -2,7 +2,7 @@
 Property C15, fourth part: "deleting … makes it unavailable to further actions", for EVERY request the file system
 registers and for every path an agent could send, ledger included.
 
-* `requestShapes` is the full request table below `file_system` — 25 shapes: 7 of the FileSystem manager, 5 + 1 of a Folder,
+* `requestShapes` is the full request table below `file_system` — 23 shapes: 7 of the FileSystem manager, 5 + 1 of a Folder,
   5 of a File reached through its folder and the same 5 through the `file` route — regenerated from the three
   `_init_request_manager` methods (`C15_gen_request_table`); every shape denotes an operation of the model
   (`C15_request_shapes_modelled`).
@@ -218,7 +218,7 @@ theorem resolve_usesFile (s : State) (path : List String) (F x : Name) (op : Op)
     simp only [Sum.inl.injEq] at h; subst h; simp [Op.usesFile]
 
 /-- **Any path addressed to a folder that is not live changes nothing**: whatever an agent sends below `file_system` —
-any of the 25 registered shapes, truncated, over-long or misspelt — if it addresses (or addresses something inside) a
+any of the 23 registered shapes, truncated, over-long or misspelt — if it addresses (or addresses something inside) a
 folder name with no live folder, and is not one of the explicit `create …` / `restore folder …` requests, the node's whole
 state (structure, every `num_access`, every countdown, the counters) is unchanged and the answer is not `success`.
 Holds in every power state. -/
